@@ -172,8 +172,8 @@ PROPS = {
  ),
  "C15": dict(
     level_text="Lean 4 proof of a REFINEMENT between two executable machines: Ring32 (model of AtomicMove computing on u32 residues with exactly the wrapping / signed / checked operations of the source) is, action for action and for runs of any length, the image modulo 2^32 of ring model M1 over free-running naturals, and never panics (c15_refinement; window hypotheses derived from a bound on the number of threads by a pigeonhole argument; index-based re-guess loops related at call level), and the same for FullSyncMove (LockRing32, c15_lockring_refinement); plus: every decision the rings take from their wrapping u32 counters (admission, emptiness as a signed difference, slot index, length, CAS equality, lap reconstruction of index-based publish / cancel with its checked + and *) equals the decision model M1/M2 takes from free-running naturals, for counters of ANY magnitude inside the windows the ring invariant provides, and that no checked operation overflows (counterexample theorem: the pinned `enqueuer_tail - 1` does). Tied to the code: step-level replay from origins just below 2^32 (counters wrap during the run), differential replay of sequential histories from five origins in the release and the overflow-checking build.",
-    level_note="Ring32 and the arithmetic of Mutiny/Model/U32.lean are hand transcriptions of the source, tied to it by replaying the recorded traces of the real AtomicMove on Ring32 itself from origins around 2^32 (every hook register compared as it is); the refinement theorem excludes an exact multiple of 2^32 events flowing between the two loads of the emptiness re-check (hypothesis noABA); FullSyncMove likewise: LockRing32 with refinement theorem c15_lockring_refinement (no thread hypothesis needed under the lock) and replay; BUFFER_SIZE a power of two enters as N | 2^32; fewer than 2^31 - N concurrent claimants.",
-    lean=["C15", "C15_Machine"],
+    level_note="Ring32 / LockRing32 and the arithmetic of Mutiny/Model/U32.lean are hand transcriptions of the source, tied to it (a) by the translator G4: the operator kinds of the counter arithmetic of every ring function are re-read from the current source on every run (Generated/RingOps.lean) and proved equal to the operators the machines use (Props/C15_Ops.lean; a saturating / checked / plain operator substituted for a wrapping one breaks the obligation), (b) by replaying the recorded traces of the real AtomicMove on Ring32 itself from origins around 2^32 (every hook register compared as it is); the refinement theorem excludes an exact multiple of 2^32 events flowing between the two loads of the emptiness re-check (hypothesis noABA); FullSyncMove likewise: LockRing32 with refinement theorem c15_lockring_refinement (no thread hypothesis needed under the lock) and replay; BUFFER_SIZE a power of two enters as N | 2^32; fewer than 2^31 - N concurrent claimants.",
+    lean=["C15", "C15_Machine", "C15_Ops"],
     scenarios=[ring(k, "diff", 300, extra=["origins=0,4294967288,4294967280,4294967272,4294967264"], model=False, profile=p) for k in ("atomic", "fullsync") for p in ("release", "checked")] +
               [ring(k, "mixed", 800, extra=["origins=4294967288,4294967280,0,4294967264"]) for k in ("atomic", "fullsync")] +
               # the same real traces replayed on the u32 machine Ring32 itself (hook values compared as they are, index-based calls from every origin)
